@@ -1209,3 +1209,51 @@ Proof.
   destruct (emit _ (root_extract G root st1)) as [out' st2] eqn:E. inversion H; subst out'.
   apply emit_facts in E as (_ & E & _). rewrite E. apply select_names_nodup.
 Qed.
+
+(* ------------------------------------------------------------------------------------------------ fuel monotonicity *)
+Section Mono.
+  Variable G : graph.
+  Variable o : opts.
+  Variable fx : bool.
+
+  Lemma kids_loop_mono : forall rec rec' es r i st u st',
+    (forall e p j s r' s', rec e p j s = (Ok r', s') -> rec' e p j s = (Ok r', s')) ->
+    kids_loop rec r es i st = (Ok u, st') -> kids_loop rec' r es i st = (Ok u, st').
+  Proof.
+    induction es as [|e es IH]; simpl; intros r i st u st' Hr H; auto.
+    destruct (rec e (Some r) i (with_items st r (insert_at i None))) as [[item|] st2] eqn:E; [|discriminate].
+    rewrite (Hr _ _ _ _ _ _ E). destruct (place st2 r i item) as [i' st3]. eapply IH; eauto.
+  Qed.
+
+  Lemma conv_mono_S : forall f d x p i h st r st',
+    conv G o fx f d x p i h st = (Ok r, st') -> conv G o fx (S f) d x p i h st = (Ok r, st').
+  Proof.
+    induction f as [|f IH]; intros d x p i h st r st' H; [simpl in H; discriminate|].
+    rewrite conv_S in H. rewrite conv_S.
+    destruct (bypass G x).
+    - destruct (conv G o fx f (S d) _ p i _ (note_depth d st)) as [[ret|] st1] eqn:E; [|discriminate].
+      rewrite (IH _ _ _ _ _ _ _ _ E). exact H.
+    - destruct (repeat_test G fx x h (note_depth d st)) as [[r0 st1]|]; auto.
+      destruct (negb (n_show (gnode G x)) && negb (o_hidden o)); auto.
+      destruct (choose G o x (name_of G x h)) as [pn|]; auto.
+      destruct (create G x pn p i (note_depth d st)) as [r0 st1].
+      destruct (kids_loop _ r0 (kids G x) 0 st1) as [[u|] st2] eqn:K; [|discriminate].
+      erewrite kids_loop_mono; [exact H| |exact K]. intros; apply IH; auto.
+  Qed.
+
+  Lemma conv_mono : forall k f d x p i h st r st',
+    conv G o fx f d x p i h st = (Ok r, st') -> conv G o fx (f + k) d x p i h st = (Ok r, st').
+  Proof.
+    induction k as [|k IH]; intros; [rewrite Nat.add_0_r; auto|].
+    rewrite Nat.add_succ_r. apply conv_mono_S. auto.
+  Qed.
+End Mono.
+
+(* once a conversion has succeeded, more fuel changes nothing: output, recorded depth and final state are the same *)
+Theorem to_railroad_fuel_irrelevant : forall G o fx root fuel fuel' out st,
+  to_railroad G o fx root fuel = (Ok out, st) -> fuel <= fuel' -> to_railroad G o fx root fuel' = (Ok out, st).
+Proof.
+  intros G o fx root fuel fuel' out st H Hle. unfold to_railroad, to_railroad_from in *.
+  destruct (conv G o fx fuel 1 root None 0 None init_state) as [[r|] st1] eqn:C; [|discriminate].
+  replace fuel' with (fuel + (fuel' - fuel)) by lia. rewrite (conv_mono G o fx _ _ _ _ _ _ _ _ _ _ C). exact H.
+Qed.
